@@ -997,18 +997,18 @@ impl AArch64Instruction {
             }
             // C6.2.253, C6.2.254
             AArch64Instruction::Movnz => {
-                field = 0;
-                // Clear all bits except rd[4:0] and hw[22:21]
-                and_from_slice(dest, &0x0060_001F_u32.to_le_bytes());
+                // The field is imm16 plus opc[1] (bit 30), which selects MOVN (0) or MOVZ (1). The
+                // rest of the instruction (sf, hw, rd, the fixed bits) is left as the input has it:
+                // forcing sf=1 would turn `movn w0, ...` into `movn x0, ...`.
+                field = (0xffff << 5) | (1 << 30);
                 let mut value = extracted_value as i64;
                 mask = 0u32;
                 if negative {
+                    // MOVN: opc=00
                     value = !value;
-                    // MOVN opcode: sf=1, opc=00, fixed=100101
-                    mask |= 0x9280_0000;
                 } else {
-                    // MOVZ opcode: sf=1, opc=10, fixed=100101
-                    mask |= 0xd280_0000;
+                    // MOVZ: opc=10
+                    mask |= 1 << 30;
                 }
                 mask |= ((value as u64).extract_bit_range(0..16) as u32) << 5;
             }
